@@ -400,6 +400,8 @@ impl Group for C07 {
                 3 => cv = u64::MAX - hv.min(5),     // sum overflow candidates
                 // a small holder output (at / below / just above the dust limit, a few thousand sat)
                 4 => hv = pick(rng, &[1, 353, 354, 355, 1000, 3540, 3541]),
+                // the two values attributed to the wrong sides
+                5 => std::mem::swap(&mut hv, &mut cv),
                 _ => {}
             }
             let phase1 = rng.chance(1, 2);
